@@ -9,7 +9,7 @@ EXTRACT = ["FDS"]
 BINS = []
 NEEDS_CICADA = True
 ALLOWED_AXIOMS = []
-PINNED = ["C08_full", "C08_refuted", "C08_partial", "C08_shell", "C08_children", "C08_builtin", "C08_emfile", "Known_C08"]
+PINNED = ["C08_full", "C08_holds", "C08_shell", "C08_children", "C08_builtin", "C08_emfile", "C08_emfile_capture"]
 TRUSTED = R.TRUSTED
 ASSUMES = R.ASSUMES
 WEIGHTS = {"builtin": 0.15, "notfound": 0.06, "here": 0.15, "from": 0.1, "redir": 0.5, "maxredir": 3, "capture": 0.2,
